@@ -8,7 +8,10 @@ pub fn size(e: &EnumSpec) -> usize {
 
 fn fix_generics(e: &mut EnumSpec) {
     let uses = |e: &EnumSpec, t: FieldTy| e.variants.iter().any(|v| v.fields.iter().any(|f| f.ty == t));
-    if e.type_param && !uses(e, FieldTy::Gen) {
+    if e.type_param2 && !uses(e, FieldTy::Gen2) {
+        e.type_param2 = false;
+    }
+    if e.type_param && !uses(e, FieldTy::Gen) && !e.type_param2 {
         e.type_param = false;
         e.where_clause = false;
     }
